@@ -10,6 +10,7 @@ package auparse
 
 import (
 	"fmt"
+	"os"
 	"strings"
 	"testing"
 )
@@ -52,7 +53,11 @@ func TestBoundedTokenizerAlpha11Len4(t *testing.T) {
 			gen(prefix+string([]byte{c}), n-1)
 		}
 	}
-	gen("", 4)
+	maxLen := 4
+	if os.Getenv("VERIF_TIER") == "thorough" {
+		maxLen = 6 // 1 948 717 values x 7 keys
+	}
+	gen("", maxLen)
 	cases := 0
 	reported := map[string]bool{}
 	fail := func(class, format string, a ...interface{}) {
